@@ -15,9 +15,9 @@ pub fn steps_of(bytes: &[u8]) -> Result<(u64, bool), String> {
     crate::history::fire_if_armed(bytes);
     let v = bytes.to_vec();
     verif_hooks::reset();
-    // far above the bound that is judged, but finite: a validator loop that never ends becomes a
+    // above the bound that is judged, but finite: a validator loop that never ends becomes a
     // count (and a violation of the bound) instead of a run that has to be killed
-    let fuel = 64 * (SLOPE * bytes.len() as u64 + CONST);
+    let fuel = 4 * (SLOPE * bytes.len() as u64 + CONST);
     verif_hooks::set_limit(fuel);
     let r = catch(|| DNSSector::new(v).and_then(|d| d.parse()).is_ok());
     verif_hooks::set_limit(u64::MAX);
@@ -295,6 +295,29 @@ pub fn family(fam: usize, n: usize) -> (Vec<u8>, &'static str) {
             }
             (p, "distinct-literal-owners")
         }
+        12 => {
+            // records of a type whose data must be a pointer-free name (DNAME), each holding nothing but a
+            // pointer to the data of the one before: refused at the first record by the policy, expensive if
+            // the data of such records is ever resolved through pointers
+            let k = (n.saturating_sub(12 + 7 + 16) / 14).min(65000);
+            let mut p = hdr(0x8000, k + 1, 0, 0);
+            p.extend_from_slice(&[1, b'q', 0, 0, 1, 0, 1]);
+            // first DNAME: literal target "t."
+            p.extend_from_slice(&[0xc0, 12, 0, 39, 0, 1, 0, 0, 0, 0, 0, 3]);
+            let mut prev = p.len();
+            p.extend_from_slice(&[1, b't', 0]);
+            // the chain proper stays within the reach of a 14-bit pointer; the remaining records all point
+            // at its last link
+            for i in 0..k {
+                p.extend_from_slice(&[0xc0, 12, 0, 39, 0, 1, 0, 0, 0, 0, 0, 2]);
+                let at = p.len();
+                p.extend_from_slice(&ptr(prev));
+                if i < 1000 {
+                    prev = at;
+                }
+            }
+            (p, "dname-pointer-chain(rejected)")
+        }
         _ => {
             // MX records: 2-byte preference + chained name
             let k = budget / 16;
@@ -311,7 +334,7 @@ pub fn family(fam: usize, n: usize) -> (Vec<u8>, &'static str) {
     }
 }
 
-pub const NFAM: usize = 12;
+pub const NFAM: usize = 13;
 
 fn bound_check(bytes: &[u8], what: &str, st: &mut Stats) -> PResult {
     let (s, ok) = match steps_of(bytes) {
@@ -487,7 +510,7 @@ pub fn replay_c18(data: &[u8]) -> PResult {
 pub fn check_c18(ctx: &Ctx, known: &KnownFindings) -> Report {
     let mut rep = Report::new("C18");
     let ks = known_sigs(known, "C18");
-    rep.rule = format!("step counter (verif_hooks: one step per label/pointer followed, per record, per question, per EDNS option) across DNSSector::parse. Deterministic part: 12 adversarial families (16-pointer chains into a 255-byte name as owner / NS / SOA / MX names, maximal literal names, dense empty options with one code and with pairwise different codes, 11-byte records of pairwise different types, pairwise different literal owners, three rejected ladder/huge-name shapes) at sizes 64 .. 65535 .. 200000 (thorough: .. 1 MB), each accepted by the parser. Generated part: the C01 input stream and the families at drawn sizes with 1-3 damaged bytes. Oracle: steps <= {}*len + {} for every input, and per family ratio(len ~65535) <= 1.25*ratio(len ~4096) + 1 (no super-linear growth). Cross-check without the hook: machine instructions of a process that builds and parses each family (cachegrind, --cache-sim=no) at 15000/30000/60000 bytes (thorough: also 4000/8000/16000 and 50000/100000/200000): instructions per additional byte between the two larger sizes <= 1.5 x that between the two smaller sizes + 50. Non-trivial: the parser executes >= len steps; distinct = hash of input.", SLOPE, CONST);
+    rep.rule = format!("step counter (verif_hooks: one step per label/pointer followed, per record, per question, per EDNS option) across DNSSector::parse. Deterministic part: 13 adversarial families (16-pointer chains into a 255-byte name as owner / NS / SOA / MX names, maximal literal names, dense empty options with one code and with pairwise different codes, 11-byte records of pairwise different types, pairwise different literal owners, three rejected ladder/huge-name shapes, a chain of DNAME records whose data is a pointer to the previous one's data - rejected) at sizes 64 .. 65535 .. 200000 (thorough: .. 1 MB), each accepted by the parser. Generated part: the C01 input stream and the families at drawn sizes with 1-3 damaged bytes. Oracle: steps <= {}*len + {} for every input, and per family ratio(len ~65535) <= 1.25*ratio(len ~4096) + 1 (no super-linear growth). Cross-check without the hook: machine instructions of a process that builds and parses each family (cachegrind, --cache-sim=no) at 15000/30000/60000 bytes (thorough: also 4000/8000/16000 and 50000/100000/200000): instructions per additional byte between the two larger sizes <= 1.5 x that between the two smaller sizes + 50. Non-trivial: the parser executes >= len steps; distinct = hash of input.", SLOPE, CONST);
     rep.assumptions = vec![
         "the counter measures the instrumented validator loops only (name walkers, option loop, per-record/per-question entry); an un-instrumented new loop would be invisible here".into(),
         "constant 32 derives from the policy: <= 16 pointers + <= 128 labels per name walk, densest legal packing two chained names per 14-byte NS record (~20.7 steps/byte)".into(),
